@@ -41,7 +41,7 @@ NA = {
 }
 
 # properties whose check is finished and passes on the unchanged tree (edited by hand as checks land)
-READY = {"C04", "C05", "C07", "C10", "C15", "C17", "C18", "C19"}
+READY = {"C04", "C05", "C07", "C10", "C11", "C15", "C17", "C18", "C19", "C20"}
 
 
 def main():
